@@ -84,7 +84,7 @@ def check_C05(run):
     mc_factor(run, ["q", "c"], ["p"])
     g = Gen(run.seed * 1000 + 5)
     types = {"d": 0.85, "z": 0.8, "s": 0.35, "c": 0.35} if run.tier == "quick" else FULL_TYPES
-    run.conform("gssvx", F.fam_gssvx(g, "C05", sizes(run, 700, 5000), types), ["C05."])
+    run.conform("gssvx", merge(F.fam_gssvx(g, "C05", sizes(run, 700, 5000), types), F.fam_factored(g, "C05", sizes(run, 160, 1600), {"d": 1.0, "z": 1.0, "s": 1.0, "c": 1.0})), ["C05.", "C18.unexpected_negative_info"])
     return run.finish(rule="generated systems through ?gssvx: every Trans x Equil x storage x IterRefine, power-of-two row/column scalings forcing equed N/R/C/B, complex data with nonzero imaginary parts")
 
 
@@ -141,7 +141,8 @@ def check_C12(run):
     g = Gen(run.seed * 1000 + 12)
     types = {"d": 0.85, "z": 0.45, "s": 0.4, "c": 0.35} if run.tier == "quick" else FULL_TYPES
     run.conform("lacon", F.fam_lacon(g, "C12", sizes(run, 400, 4000), {"d": 1.0, "s": 0.5}), ["C12."])
-    run.conform("cond", merge(F.fam_cond(g, "C12", sizes(run, 700, 6000), types), F.fam_singular(g, "C12", sizes(run, 150, 1500), types, fn="gssvx")), ["C12."])
+    run.conform("cond", merge(F.fam_cond(g, "C12", sizes(run, 700, 6000), types), F.fam_singular(g, "C12", sizes(run, 150, 1500), types, fn="gssvx"),
+                              F.fam_cond_big(g, "C12", sizes(run, 300, 3000), types)), ["C12."])
     return run.finish(rule="the estimator automaton replayed on explicit operators; expert-driver runs over graded / generic / random-float systems with condition numbers from 1 to beyond 1/eps, both norms (Trans), both storages, equilibration on/off; singular systems for the growth factor")
 
 
@@ -165,7 +166,8 @@ def check_C15(run):
     mc_factor(run, ["q"], ["p"])
     g = Gen(run.seed * 1000 + 15)
     types = {"d": 0.85, "z": 0.45, "s": 0.35, "c": 0.35} if run.tier == "quick" else FULL_TYPES
-    scen = merge(F.fam_ilu(g, "C15", sizes(run, 1500, 12000), types), F.fam_ilu_split(g, "C15", sizes(run, 300, 3000), types))
+    scen = merge(F.fam_ilu(g, "C15", sizes(run, 1500, 12000), types), F.fam_ilu_split(g, "C15", sizes(run, 300, 3000), types),
+                 F.fam_ilu_reuse(g, "C15", sizes(run, 250, 2500), types))
     run.conform("ilu", scen, ["C15.", "C03."])
     # "never breaks down": the same runs under ASan + UBSan (observer)
     g2 = Gen(run.seed * 1000 + 151)
